@@ -81,7 +81,7 @@ func avoid(T int, bounds []int) int {
 	return T
 }
 
-var gapGrid = []int{0, 0, 0, 3, 10, 25, 45, 70, 100, 140, 185, 235, 300}
+var gapGrid = []int{0, 0, 0, 3, 10, 25, 45, 70, 100, 140, 185, 185, 185, 235, 300}
 
 func sleepUntil(start time.Time, atMs int) {
 	if d := time.Until(start.Add(time.Duration(atMs) * time.Millisecond)); d > 0 {
@@ -129,15 +129,20 @@ func genTimeline(t *rapid.T) TLCase {
 	var c TLCase
 	c.Cfg.M = rapid.IntRange(1, 4).Draw(t, "m")
 	c.Cfg.P = rapid.IntRange(c.Cfg.M, 8).Draw(t, "p")
+	if rapid.Bool().Draw(t, "highP") {
+		c.Cfg.P = rapid.IntRange(6, 8).Draw(t, "p2")
+	}
 	c.Cfg.WMs, c.Cfg.BanMs = 200, 150
 	c.Cfg.CleanupMs = rapid.SampledFrom([]int{50, 3600000}).Draw(t, "cleanup")
 	n := rapid.IntRange(5, 14).Draw(t, "nsteps")
 	bounds := map[int][]int{}
 	T := 0
-	ops := []string{"fail", "fail", "fail", "fail", "fail", "query", "query", "query", "query", "success", "ban", "unban"}
+	// "requery": a query immediately followed by a burst of failures (the shape that re-bans an address whose
+	// expired record has just been seen by IsBanned)
+	ops := []string{"fail", "fail", "fail", "fail", "fail", "fail", "query", "query", "query", "query", "requery", "requery", "success", "ban", "unban"}
 	for i := 0; i < n && T < 1100; i++ {
 		s := TLStep{Op: rapid.SampledFrom(ops).Draw(t, "op")}
-		if rapid.IntRange(0, 9).Draw(t, "ipSel") < 7 {
+		if rapid.IntRange(0, 9).Draw(t, "ipSel") < 8 {
 			s.IP = 0
 		} else {
 			s.IP = rapid.IntRange(1, 2).Draw(t, "ip")
@@ -145,9 +150,14 @@ func genTimeline(t *rapid.T) TLCase {
 		T += rapid.SampledFrom(gapGrid).Draw(t, "gap")
 		T = avoid(T, bounds[s.IP])
 		s.AtMs = T
+		if s.Op == "requery" {
+			s.Op = "query"
+			c.Steps = append(c.Steps, s)
+			s = TLStep{Op: "fail", IP: s.IP, AtMs: T}
+		}
 		switch s.Op {
 		case "fail":
-			s.N = rapid.SampledFrom([]int{1, 1, 1, 2, c.Cfg.M}).Draw(t, "n")
+			s.N = rapid.SampledFrom([]int{1, 1, 2, c.Cfg.M, c.Cfg.M}).Draw(t, "n")
 			bounds[s.IP] = append(bounds[s.IP], T+c.Cfg.WMs, T+c.Cfg.BanMs)
 		case "ban":
 			s.DurMs = rapid.SampledFrom([]int{0, 100, 100}).Draw(t, "dur")
